@@ -168,6 +168,9 @@ def run(model, tier="quick"):
                   "a market is open on a bar iff the bar is in its data index", [])
     effect_rule(model, res)
     res.floor("obligations", len(res.obligations), 11)
+    # constructors establish the relations between fields that the references above take for granted
+    from .ctor_refs import constructors
+    res.units["constructor_references"] = constructors(res, model, ('deribit', 'market'))
     from ..rules.fresh import fresh_rule
     if "R-FRESH" not in res.rules:
         res.rules.append("R-FRESH")
